@@ -498,10 +498,12 @@ func bsParseWarnings(stderr string) (map[bsPos][]string, []string) {
 			other = append(other, l)
 			continue
 		}
+		// spreadsheet column names: A..Z, AA, AB, ... (bijective base 26)
 		col := 0
 		for _, ch := range m[1] {
-			col = col*26 + int(ch-'A')
+			col = col*26 + int(ch-'A') + 1
 		}
+		col--
 		line, _ := strconv.Atoi(m[2])
 		p := bsPos{line, col}
 		w[p] = append(w[p], m[3])
